@@ -29,6 +29,8 @@ def main(tier):
     for si, s in enumerate(chosen):
         longname = any(n[0] == "LONG" for n in s["hid"]["names"])
         for vi, var in enumerate(variants):
+            if var["stack"] == "comp":
+                var = dict(var, level=[5, 10, 2, 9][si % 4])        # levels select encoder features (window, modes)
             prof = "prod" if (longname and "comp" in var["stack"]) or (si + vi) % 5 == 0 else "s20"
             jobs[prof].append(dict(par=dict(seed=seed() + 161 + si, **var), labels=s["labels"], stream=s["stream"],
                                    files=s["files"], names=s["hid"]["names"], info=s["hid"]["info"]))
